@@ -1,4 +1,4 @@
 SPECIFICATION Spec
-CONSTANT Mode = "C03"
+CONSTANT Mode = "C17"
 POSTCONDITION Accepted
 CHECK_DEADLOCK FALSE
